@@ -366,6 +366,36 @@ pub fn generate(sink: &mut Sink, seed: u64, thorough: bool) {
                 let at = if !float_pts.is_empty() && rng.chance(1, 2) { *rng.pick(&float_pts) } else { *rng.pick(&pts) };
                 (at, format!(" fx:{a}=\"{v}\""), "attribute")
             }
+        } else if rng.chance(1, 6) {
+            // a foreign element INSIDE a leaf element, in front of its text (mixed content)
+            let mut spots: Vec<usize> = vec![];
+            let mut pos = 0usize;
+            let mut in_proto = false;
+            for (ln, line) in xml.split_inclusive('\n').enumerate() {
+                if line.starts_with("</prototype>") {
+                    in_proto = false;
+                }
+                if ln >= 2 && !in_proto && line.starts_with('<') && !line.starts_with("</") && line.contains("</") && !line.starts_with("<fx:") {
+                    if let Some(k) = line.find('>') {
+                        spots.push(pos + k + 1);
+                        // … and in the middle of a plain (not CDATA) text
+                        if let Some(e) = line.rfind("</") {
+                            let txt = &line[k + 1..e];
+                            if txt.len() >= 2 && txt.is_ascii() && !txt.starts_with('<') {
+                                spots.push(pos + k + 1 + txt.len() / 2);
+                            }
+                        }
+                    }
+                }
+                if line.starts_with("<prototype") {
+                    in_proto = true;
+                }
+                pos += line.len();
+            }
+            if spots.is_empty() {
+                continue;
+            }
+            (*rng.pick(&spots), (*rng.pick(&["<fx:note/>", "<fx:guid type=\"String\">evil</fx:guid>", "<!-- c -->", "<?pi x?>"])).to_string(), "element-inside-leaf")
         } else if xml.contains("Representation type=") && rng.chance(1, 3) {
             match shadow_insertion(&mut rng, &xml, true) {
                 Some(x) => x,
@@ -411,10 +441,14 @@ pub fn generate(sink: &mut Sink, seed: u64, thorough: bool) {
                 sink.fail("C08", "reader/panic-on-foreign-content", &replay, &format!("panic: {p}"));
                 sink.fail("C18", "foreign/panic-on-foreign-content", &replay, &format!("panic: {p}"));
             }
+            Ok(Err(e)) if kind == "element-inside-leaf" => sink.fail("C18", "foreign/element-inside-leaf-hides-text", &replay, &format!("a foreign element in front of the text of a leaf element makes the file unreadable: {e}")),
             Ok(Err(e)) => sink.fail("C18", &format!("foreign/{kind}-breaks-open"), &replay, &format!("inserting {} under <{parent}> makes the file unreadable: {e}", text.trim().lines().next().unwrap_or(""))),
             Ok(Ok(scene_b)) => {
                 let diffs = same_scene(&scene_a, &scene_b);
-                if let Some((_, sig, detail)) = diffs.first() {
+                if let (Some((_, _, detail)), "element-inside-leaf") = (diffs.first(), kind) {
+                    // one signature for the whole class (listed in known_findings.json)
+                    sink.fail("C18", "foreign/element-inside-leaf-hides-text", &replay, &format!("a foreign element in front of the text of a leaf element changes the standard content: {detail}"));
+                } else if let Some((_, sig, detail)) = diffs.first() {
                     sink.fail("C18", &format!("foreign/{kind}-changes/{sig}"), &replay, &format!("inserting fx:{local} under <{parent}> changes the standard content: {detail}"));
                     if sig.starts_with("blob/") {
                         // an image's descriptors no longer lead to that image's own data
